@@ -382,6 +382,10 @@ def run(ctx):
     ctx.rule("R08.8", "no timer stays armed after the graceful restart it belongs to has been carried out, so the quit's normal-priority controls are read")
     ctx.borrow("C06", ["R06.5"], "R08.8", "coupling invariant at the exit of every handler path")
 
+    # ---- R08.9 the interrupt overtakes whatever is queued: Urgent is the greatest Priority (owned by C02)
+    ctx.rule("R08.9", "an Interrupt / Terminate event is received ahead of any backlog of ordinary events")
+    ctx.borrow("C02", ["R02.6"], "R08.9", "the derived ordering of Priority puts Urgent last = greatest", keys=["priority-order"])
+
 
 def jobrules_to_spawnable(ctx):
     c = ctx.facts.fns_matching(r"command::.*to_spawnable$", crate=SUP)
